@@ -334,3 +334,11 @@ Proof.
   intros i j Hij Hj. cbn in Hj.
   destruct j as [|[|[|j]]]; destruct i as [|[|[|i]]]; cbn; try lia; lra.
 Qed.
+
+Lemma lin_interp_spec : forall xl yl xr yr x : R, xl < xr -> xl <= x <= xr ->
+  lin_interp xl yl xr yr xl = yl /\ lin_interp xl yl xr yr xr = yr /\
+  Rmin yl yr <= lin_interp xl yl xr yr x <= Rmax yl yr.
+Proof.
+  intros. split; [apply lin_interp_left; assumption|]. split; [apply lin_interp_right; assumption|].
+  apply lin_interp_between; assumption.
+Qed.
